@@ -8,7 +8,28 @@ claim("C15", "wire-type tree agreement between every serializer/deserializer pai
       "constructor field is serialised or provably derived. Does not decide value ranges or the --read_assignments rerun.",
       "DESIGN.md 3/C15 (Z1-Z3)")
 
-for _p in ["C01", "C02", "C03", "C04", "C05", "C06", "C07", "C08", "C09", "C10", "C11", "C13", "C14", "C16", "C17", "C18", "C20"]:
+claim("C01", "table totality/disjointness over AST-evaluated enum sets + abstract path enumeration of the decision tree",
+      "Decides a necessary structural condition of C01: every match event the comparators can emit is classified in exactly one "
+      "of consistent/minor/major as docs/formats.md documents its family, is priced, the derived sets are coherent, "
+      "classify_assignment tests them in the required order, and every path of assign_to_isoform/match_consistent*/"
+      "match_inconsistent ends in a ReadAssignment (None only where re-dispatched). Profile construction, junction "
+      "arithmetic and polyA distances are runtime-valued and not decided.",
+      "DESIGN.md 3/C01 (E1-E4)")
+
+claim("C11", "left/right table symmetry over AST-evaluated enum sets (typed code-pair reflection X1 in progress)",
+      "Decides the reflection clause's table part: every *_left event has a *_right twin in the same classification sets, with "
+      "equal cost, mirrored printable names, and alternative_sites is side-symmetric. Translation equivariance and value-level "
+      "equivariance are not decided.",
+      "DESIGN.md 3/C11 (X2; X1 staged)")
+
+claim("C17", "path-wise symbolic memo check, who-constructs / provenance checks over resolved call sites, key-tuple agreement",
+      "Decides: the exon-id memo returns what it stores on hit and miss; every novel transcript/gene id takes its number from the "
+      "ExcludingIdDistributor built from the task's own annotation and chromosome, which skips forbidden ids in a loop and parses "
+      "them with the formatting constants; all generated ids embed the chromosome; loader and lookup key tuples agree and the "
+      "task's printers share one storage. Global uniqueness over arbitrary annotations is not decided.",
+      "DESIGN.md 3/C17 (I1-I4)")
+
+for _p in ["C02", "C03", "C04", "C05", "C06", "C07", "C08", "C09", "C10", "C13", "C14", "C16", "C18", "C20"]:
     na(_p, NOT_BUILT)
 
 na("C12", "equality of outputs across .gtf/.gtf.gz/.db, --complete_genedb and BAM partitions is determined by what gffutils "
